@@ -97,7 +97,7 @@ def run(out, tier, seed):
     points = [json.loads(json.loads('"' + m + '"')) for m in re.findall(r'<<"PROBE", "(.*)">>', g.out)]
     if len(points) < 80:
         raise C.ToolError("typing generator produced too few points")
-    C.build_harness()
+    C.build_libs()
     deps = os.path.join(C.BUILD, "target", "debug", "deps")
     ext = {n: newest(os.path.join(deps, "lib%s-*.rlib" % n)) for n in
            ["paseto_core", "serde_json", "paseto_v1", "paseto_v2", "paseto_v3", "paseto_v3_aws_lc", "paseto_v4", "paseto_v4_sodium"]}
